@@ -57,7 +57,8 @@ type Edit struct {
 
 // Op is one step of a history.
 type Op struct {
-	K      string   `json:"k"` // scan stage supply trans edit
+	K      string   `json:"k"` // scan stage supply trans edit junk restart
+	N      int      `json:"n,omitempty"` // junk: number of leftover temporary files put into the staging root
 	Req    []Item   `json:"req,omitempty"`
 	BadLen bool     `json:"badlen,omitempty"`
 	Src    []string `json:"src,omitempty"` // supply: per needed path ok|other|missing
@@ -234,7 +235,9 @@ func runCase(c Case) (res result) {
 		alpha = true
 	}
 	ep := lepx.NewEndpoint(nil, root, session, cfg, alpha)
-	defer ep.Shutdown()
+	defer func() { ep.Shutdown() }()
+	stagingRoot := filepath.Join(os.Getenv("MUTAGEN_DATA_DIRECTORY"), "staging", session+"-beta")
+	junk := 0
 	sep := lepx.NewEndpoint(nil, src, session+"src", &synchronization.Configuration{
 		WatchMode: synchronization.WatchMode_WatchModeNoWatch}, true)
 	defer sep.Shutdown()
@@ -416,6 +419,22 @@ func runCase(c Case) (res result) {
 			}
 			env := fmt.Sprintf("(Env %s %s %d %v)", coqDisk(ids, post), entries(ids, results), len(problems), missing)
 			hops = append(hops, fmt.Sprintf("HTrans %s %s (%s)", coretree.Changes(renamed), env, obs))
+		case "junk":
+			// leftovers of an interrupted staging operation: uncommitted
+			// temporary files in the staging root
+			os.MkdirAll(stagingRoot, 0o700)
+			for i := 0; i < o.N; i++ {
+				junk++
+				os.WriteFile(filepath.Join(stagingRoot, fmt.Sprintf("storage%09d", junk)), []byte("partial"), 0o600)
+			}
+		case "restart":
+			// the endpoint goes away without a Transition (staging is kept); a
+			// new instance takes over the same root and staging root
+			ep.Shutdown()
+			ep = lepx.NewEndpoint(nil, root, session, cfg, alpha)
+			receiver, needed, sigs = nil, nil, nil
+			lastSnap = nil
+			hops = append(hops, "HRestart")
 		case "edit":
 			receiver, needed, sigs = nil, nil, nil
 			applyEdit(root, o.Edit, tmpdir)
@@ -640,6 +659,24 @@ func main() {
 		}
 	}
 	runAll(corpus, "corpus")
+	// resumed staging: many digest prefixes and leftover temporary files in the
+	// staging root, a new endpoint instance, the same request again
+	nr := 3
+	if cfg.Thorough() {
+		nr = 12
+	}
+	resumed := make([]Case, nr)
+	for i := range resumed {
+		var req []Item
+		for j := 0; j < 10+cfg.Rand.Intn(3); j++ { // small: the checker's alignment search is exponential in the request length
+			req = append(req, Item{Path: fmt.Sprintf("r/f%03d", j), Content: fmt.Sprintf("resumed %d %d", i, j)})
+		}
+		resumed[i] = Case{Init: map[string]string{"a": "A"}, Ops: []Op{
+			{K: "junk", N: 280 + cfg.Rand.Intn(100)}, {K: "scan"}, {K: "stage", Req: req}, {K: "supply"},
+			{K: "junk", N: 280 + cfg.Rand.Intn(100)}, {K: "restart"}, {K: "scan"}, {K: "stage", Req: req},
+			{K: "supply"}, {K: "scan"}, {K: "stage", Req: req[:5]}}}
+	}
+	runAll(resumed, "resumed")
 	n := 2500
 	if cfg.Thorough() {
 		n = 40000
